@@ -105,6 +105,9 @@ func (array *arrayOfScalarField) AppendGoValue(value interface{}) (int, error) {
 	if err != nil {
 		return -1, err
 	}
+	if !reflectValue.IsValid() {
+		return -1, fmt.Errorf("cannot append nil value")
+	}
 	return array.appendProtoValue(reflectValue), nil
 }
 
@@ -131,6 +134,9 @@ func (mapField *mapOfScalarField) SetGoValue(key string, value interface{}) erro
 	reflVal, err := scalarReflectFromGo(mapField.itemSchema.Proto, value)
 	if err != nil {
 		return fmt.Errorf("converting value to proto: %w", err)
+	}
+	if !reflVal.IsValid() {
+		return fmt.Errorf("cannot set nil value for key %q", key)
 	}
 	mapField.setKey(key, reflVal)
 	return nil
